@@ -79,6 +79,20 @@ def main():
         print("CHECK-BROKEN exception in check", pid)
         sys.exit(2)
 
+    # a table that could not be regenerated from the (reshaped) sources: the theorems that rest on it
+    # are not re-established for the code as it is now
+    try:
+        import gen_tables
+        concrete = any(not v.get("no_input") for v in ctx.violations)
+        for n, msg in sorted(gen_tables.FAILED.items()):
+            if not concrete:
+                ctx.violation("table '%s' could not be regenerated from the current sources (%s): the theorems "
+                              "resting on it are not re-established for this code" % (n, msg[:300]),
+                              dict(generator=n, error=msg, theorem_file="theories/Props/%s.v" % pid), no_input=True)
+            ctx.coverage.setdefault("tables_not_regenerated", []).append(n)
+    except Exception:
+        traceback.print_exc()
+
     kf = vlib.known_findings()
     known = {(k["property"], k["key"]): k for k in kf.get("known", [])}
     rc = 0
